@@ -553,7 +553,10 @@ def any_length(ctx):
       parents[id(ch)] = p
   szs = []
   for st in ast.walk(g.node):
-    if isinstance(st, ast.Assign) and isinstance(st.value, ast.Call) and call_name(st.value) in ('unpack', 'struct.unpack') and 'readAll(4)' in U(st.value).replace(' ', ''):
+    v_ = st.value if isinstance(st, ast.Assign) else None
+    if isinstance(v_, ast.Subscript) and isinstance(v_.value, ast.Call) and U(v_.slice) == '0':
+      v_ = v_.value
+    if isinstance(st, ast.Assign) and isinstance(v_, ast.Call) and call_name(v_) in ('unpack', 'struct.unpack') and 'readAll(4)' in U(v_).replace(' ', ''):
       t = st.targets[0]
       szs += [x.id for x in (t.elts if isinstance(t, ast.Tuple) else [t]) if isinstance(x, ast.Name)]
   bad = []
